@@ -2,7 +2,7 @@
    Property theorems only; each is closed by a lemma from the proof files. *)
 From Coq Require Import String.
 From Coq Require Import List NArith Bool Arith Lia.
-From VF Require Import Tftp.Readers Tftp.ReadersProofs C08.Entry.
+From VF Require Import Tftp.Readers Tftp.ReadersProofs Tftp.Codec Tftp.CodecProofs C08.Entry.
 Import ListNotations.
 
 (* For every content, every pattern of short reads and every block size the
@@ -34,12 +34,23 @@ Proof.
   - intros [H1 H2]. rewrite IH by exact H2. now rewrite H1, Nat.eqb_refl.
 Qed.
 
+(* in netascii mode no transfer size is ever announced, whatever the client asks for, whatever
+   the server limits and whatever kind of stream the handler returns *)
+Theorem C08_netascii_no_tsize : forall lim kind opts,
+  announces_tsize (n_oack (negotiate ncurrent lim true kind opts)) = false.
+Proof.
+  intros. unfold announces_tsize. pose proof (netascii_no_tsize lim kind opts) as H.
+  unfold oack_get in H. rewrite H. reflexivity.
+Qed.
+Print Assumptions C08_netascii_no_tsize.
+
 (* the executable checker used on the implementation's observations accepts the model *)
 Theorem C08_holds : forall c, valid c -> holds c (run_model c) = [].
 Proof.
-  intros [ct ch b v] [Hb Hv]; cbn in Hb, Hv; subst v. unfold holds, run_model; cbn [content chunking bs always_skip].
+  intros [ct ch b v op lm kd] [Hb Hv]; cbn in Hb, Hv; subst v.
+  unfold holds, run_model; cbn [content chunking bs always_skip opts lim kind fst snd].
   rewrite (framedb_framed _ _ (proj1 (C08_framing b ct ch Hb))).
-  rewrite C08_payload by auto. unfold list_N_eqb.
+  rewrite C08_payload by auto. rewrite C08_netascii_no_tsize. unfold list_N_eqb.
   destruct (list_eq_dec N.eq_dec (netascii_spec ct) (netascii_spec ct)); [reflexivity|congruence].
 Qed.
 Print Assumptions C08_holds.
@@ -48,13 +59,16 @@ Print Assumptions C08_holds.
 Theorem C08_refuted_always_skip :
   exists c, (1 <= bs c)%nat /\ holds c (run_model c) <> [].
 Proof.
-  exists {| content := [97; 13; 98]%N; chunking := [2; 1]%nat; bs := 8; always_skip := true |}.
+  exists {| content := [97; 13; 98]%N; chunking := [2; 1]%nat; bs := 8; always_skip := true;
+            opts := []; lim := {| max_bs := 65464; max_tmo := 30; default_tmo := 2 |}; kind := KNoFileno |}.
   split; [cbn; lia | vm_compute; discriminate].
 Qed.
 
 (* non-vacuity: a concrete non-trivial valid case *)
+Definition ex8 : case :=
+  {| content := [97; 13; 98; 10; 13; 10]%N; chunking := [2; 1; 1]%nat; bs := 3; always_skip := false;
+     opts := [(lit "tsize", lit "0")]; lim := {| max_bs := 65464; max_tmo := 30; default_tmo := 2 |};
+     kind := KBytesIO 6 0 |}.
 Example C08_nonvacuous :
-  valid {| content := [97; 13; 98; 10; 13; 10]%N; chunking := [2; 1; 1]%nat; bs := 3; always_skip := false |}
-  /\ run_model {| content := [97; 13; 98; 10; 13; 10]%N; chunking := [2; 1; 1]%nat; bs := 3; always_skip := false |}
-     = [[97; 13; 10]; [98; 13; 10]; [13; 10]]%N.
+  valid ex8 /\ run_model ex8 = ([[97; 13; 10]; [98; 13; 10]; [13; 10]]%N, false).
 Proof. split; [split; cbn; [lia|reflexivity] | vm_compute; reflexivity]. Qed.
